@@ -668,6 +668,53 @@ class Program:
             out.update(self.impl_methods().get(call.callee, []))
         return out
 
+    def fn_sigs(self):
+        """path -> (number of inputs, return type string) for every local fn item."""
+        if getattr(self, "_sigs", None) is None:
+            sg = {}
+            for crate, f in self.hir_items("fns"):
+                sg[norm(f["path"])] = (len(f["inputs"]), _strip_lt(f["ret"]["s"]))
+            self._sigs = sg
+        return self._sigs
+
+    def address_taken(self):
+        """fn items used as values (arguments, struct fields, casts): possible targets of indirect calls."""
+        if getattr(self, "_addr", None) is None:
+            out = set()
+            for b in self.bodies.values():
+                for c in b.calls():
+                    for a in c.args:
+                        fp = a.fn_path()
+                        if fp:
+                            out.add(fp)
+                for _, _, _, rv, _ in b.assignments():
+                    for o in rv_operands(rv):
+                        fp = o.fn_path()
+                        if fp:
+                            out.add(fp)
+            # trait methods named as values (`Self::parse_statement`): add every implementation
+            more = set()
+            for fp in out:
+                more.update(self.impl_methods().get(fp, []))
+            self._addr = {x for x in (out | more) if x in self.bodies}
+        return self._addr
+
+    def indirect_targets(self, call):
+        """Targets of a call through a fn pointer: address-taken fn items with the same arity and return type."""
+        if call.callee is not None or call.func_op.place is None:
+            return set()
+        ty = call.body.local_ty(call.func_op.place.local)
+        sig = _fnptr_sig(ty)
+        if sig is None:
+            return set(self.address_taken())
+        sg = self.fn_sigs()
+        out = set()
+        for fp in self.address_taken():
+            s2 = sg.get(fp)
+            if s2 is not None and s2[0] == sig[0] and (s2[1] == sig[1] or _generic_like(s2[1]) or _generic_like(sig[1])):
+                out.add(fp)
+        return out
+
     def callgraph(self):
         """path -> set(paths): direct calls, closure creation, and address-taken fn items."""
         if getattr(self, "_cg", None) is not None:
@@ -676,6 +723,8 @@ class Program:
         for p, b in self.bodies.items():
             for c in b.calls():
                 cg[p].update(self.call_targets(c))
+                if c.callee is None:
+                    cg[p].update(self.indirect_targets(c))
                 for a in c.args:
                     fp = a.fn_path()
                     if fp:
@@ -758,6 +807,35 @@ class Program:
             if p == suffix or p.endswith("::" + suffix):
                 return s
         raise AnchorMissing("enum %s not found" % suffix)
+
+
+def _strip_lt(t):
+    t = re.sub(r"for<[^>]*> ", "", t)
+    t = re.sub(r"&'\w+ ", "&", t)
+    t = re.sub(r"<'\w+(, '\w+)*>", "", t)
+    t = re.sub(r"'\w+, ", "", t)
+    return t
+
+
+def _fnptr_sig(ty):
+    t = _strip_lt(ty)
+    m = re.match(r"^(?:unsafe )?(?:extern \"[^\"]*\" )?fn\((.*)\)(?: -> (.*))?$", t)
+    if not m:
+        return None
+    args, ret = m.group(1), m.group(2) or "()"
+    depth, n = 0, (1 if args.strip() else 0)
+    for ch in args:
+        if ch in "<([":
+            depth += 1
+        elif ch in ">)]":
+            depth -= 1
+        elif ch == "," and depth == 0:
+            n += 1
+    return n, ret
+
+
+def _generic_like(t):
+    return re.search(r"(?<![A-Za-z0-9_:])(Self|[A-Z])(?![A-Za-z0-9_])", t) is not None
 
 
 KNOWN_EXTERN = {
